@@ -1,16 +1,16 @@
 ------------------------------ MODULE RootsMC ------------------------------
-(* Root certificates of the library: each listed root of a scalar second-order block solves its characteristic polynomial      *)
-(* a r^2 + b r + c = 0 (coefficients of x{+1}, x, x{-1}); first-order blocks have the root -c/b.                               *)
+(* Root certificates of the library: each listed root of a scalar block solves its characteristic polynomial                   *)
+(* e r^3 + a r^2 + b r + c = 0 (coefficients of x{+2}, x{+1}, x, x{-1}); first-order blocks have the root -c/b.                               *)
 EXTENDS ModelLib
 VARIABLE ro
-Ids == {"L1", "L2", "L9", "L7", "L8"}        \* single-equation models (L3 and L6 are triangular compositions of such blocks)
+Ids == {"L1", "L2", "L4", "L9", "L7", "L8"}        \* single-equation models (L3 and L6 are triangular compositions of such blocks)
 Coef(eq, sh) == LET S == {i \in 1..Len(eq.tx) : eq.tx[i][3] = sh} IN IF S = {} THEN RZero ELSE eq.tx[CHOOSE i \in S : TRUE][1]
-RootOk(eq, r) == RAdd(RAdd(RMul(Coef(eq, 1), RMul(r, r)), RMul(Coef(eq, 0), r)), Coef(eq, -1)) = RZero
+RootOk(eq, r) == RAdd(RAdd(RAdd(RMul(Coef(eq, 2), RMul(r, RMul(r, r))), RMul(Coef(eq, 1), RMul(r, r))), RMul(Coef(eq, 0), r)), Coef(eq, -1)) = RZero
 Init == \E id \in Ids : LET m == Model(id) IN
           ro = [id |-> id, src |-> Source(m), linear |-> m.linear, fwd |-> m.fwd,
                 nunstable |-> Len(SelectSeq(m.roots, LAMBDA r : RLt(ROne, RAbsQ(r)))),
                 ok |-> /\ \A i \in 1..Len(m.roots) : RootOk(m.eqs[1], m.roots[i])
-                       /\ Len(m.roots) = (IF Coef(m.eqs[1], 1) = RZero THEN 1 ELSE 2)
+                       /\ Len(m.roots) = (IF Coef(m.eqs[1], 2) # RZero THEN 3 ELSE IF Coef(m.eqs[1], 1) = RZero THEN 1 ELSE 2)
                        /\ \A i, j \in 1..Len(m.roots) : i # j => m.roots[i] # m.roots[j]]
 Next == UNCHANGED ro
 Inv_Roots == ro.ok
